@@ -62,6 +62,13 @@ def run(res, b, tier, seed):
                                                      "lib.tsh": b"func Pub() int {\n\treturn 7\n}\nfunc Unused() int {\n\treturn 8\n}\n"}))
     inter1 = len(progs)
     progs.append(pipeline.Case("bad", {"main.tsh": b"x := \n"}))
+    # programs the PARSER accepts and a converter rejects: an error in the middle of a transpilation must leave nothing behind on the
+    # transpiler object (round 9: C14-B, a nesting depth that is not restored on the error path - every later script lost its frame)
+    conv_bad0 = len(progs)
+    progs.append(pipeline.Case("convbad-order", {"main.tsh": b'func shared() int {\n\treturn 1\n}\nq := "a" < "b"\nprint(q, shared())\n'}))
+    progs.append(pipeline.Case("convbad-break", {"main.tsh": b'x := 1\nprint(x)\nswitch x {\ncase 1:\n\tbreak\n}\n'}))
+    progs.append(pipeline.Case("convbad-in-func", {"main.tsh": b'func f() int {\n\tfor i := 0; i < 2; i++ {\n\t\tif "a" < "b" {\n\t\t\treturn i\n\t\t}\n\t}\n\treturn 0\n}\nprint(f())\n'}))
+    conv_bad1 = len(progs)
     # reference: one call per (program, target) in fresh processes
     pipeline.run_pipe(b, progs, "sw")
     ref = {}
@@ -112,6 +119,11 @@ def run(res, b, tier, seed):
                 for (t1, t2) in (("bash", "bash"), ("batch", "batch"), ("bash", "batch"))]
     rng.shuffle(directed)
     directed = directed[:30 if quick else len(directed)]
+    # good, rejected by a converter, good - and the rejected one twice
+    for bad in range(conv_bad0, conv_bad1):
+        for t in ("bash", "batch"):
+            good = inter0 + (bad % (inter1 - inter0))
+            directed.append([(good, t), (bad, t), (good, t), (bad, "bash" if t == "batch" else "batch"), (inter0, t)])
     nh = nh + len(directed)
     for h in range(nh):
         if h < len(directed):
